@@ -82,8 +82,10 @@ def confuse (dims : List Nat) (cms : List (Confusion R)) (actual : Idx) : List (
         let pr := row.getD (flatIndex subDims rep) 0
         if negligible pr then none else some (setAxes cur cm.positions rep, w * pr)))) [(actual, 1)]
 
-def applyInvert (dims : List Nat) (inv : List Bool) (v : Idx) : Idx :=
-  v.zipIdx.map (fun (d, i) => if inv.getD i false then (if dims.getD i 2 == 2 then 1 - d else d) else d)
+/-- invert mask: a masked digit 0/1 is flipped; digits ≥ 2 of a qudit are left alone (Cirq's rule
+`bit ^ (bit < 2 and mask)`; the documentation only speaks of qubits) -/
+def applyInvert (inv : List Bool) (v : Idx) : Idx :=
+  v.zipIdx.map (fun (d, i) => if inv.getD i false && d < 2 then 1 - d else d)
 
 def stepOp (shape : List Nat) (b : Branch R) : Op R → List (Branch R)
   | .unitary m axes => [{ b with state := stepArr shape b.state { matrix := m, axes := axes } }]
@@ -93,7 +95,7 @@ def stepOp (shape : List Nat) (b : Branch R) : Op R → List (Branch R)
       let st := project shape axes a b.state
       if negligible (normSq nsq st) then []
       else (confuse negligible dims cms a).map (fun (rep, w) =>
-        { state := st, records := recAppend b.records key (applyInvert dims inv rep), cw := b.cw * w }))
+        { state := st, records := recAppend b.records key (applyInvert inv rep), cw := b.cw * w }))
   | .controlled conds op =>
     if conds.all (fun c => (c.eval b.records).getD false) then stepOp shape b op else [b]
   | .kraus ks axes =>
